@@ -135,14 +135,14 @@ func (r *runner) run(sp *streamSpec, bounds []boundary, eofData bool) *runResult
 				r.res.stuck = true
 				return
 			}
-			_, before, _ := mlr.Offsets()
 			posBefore := r.pos
 			err := mlr.Read()
 			if !check("Read") {
 				return
 			}
-			if _, after, _ := mlr.Offsets(); after == 0 && r.pos > posBefore && before+(r.pos-posBefore) > 0 {
-				// everything buffered was given up inside Read: either a record ended exactly here or the overflow path ran
+			if _, after, _ := mlr.Offsets(); after == 0 && r.pos > posBefore {
+				// bytes were delivered and nothing is buffered afterwards: the overflow path ran (the normal path always
+				// keeps the unfinished last record). Only counted; used as a self-check of the exemption rule.
 				r.res.resets++
 			}
 			if r.res.stuck {
